@@ -43,12 +43,17 @@ def namingOps : Handler := fun st f =>
   | ["lpkgreset"] => some ({ st with lpkgs := [], hidden := [], identPaths := [] }, "ok")
   | "hidden" :: ps => some ({ st with hidden := ps.map unhex }, "ok")
   | "identpaths" :: ps => some ({ st with identPaths := ps.map unhex }, "ok")
-  | ["decidem", kind, name, cls, path, hasRecv, testSig, structHash] =>
+  | ["decidem", kind, name, cls, path, hasRecv, testSig, structHash, emb] =>
     let o : Obj := { kind := kindOf kind, name := unhex name, cls := clsOf cls,
                      pkgPath := if path == "-" then none else some (unhex path),
                      hasRecv := hasRecv == "1", testSig := testSig == "1",
                      structHash := if structHash == "-" then none else some structHash.toNat! }
-    some (st, decisionOut (decideObj (mkEnv st) o))
+    let e : Embedded :=
+      if emb == "-" then .no else if emb == "?" then .unnamed else
+      match emb.splitOn "," with
+      | [n, c, p] => .named (unhex n) (clsOf c) (if p == "-" then none else some (unhex p))
+      | _ => .no
+    some (st, decisionOut (decideIdent (mkEnv st) o e))
   | ["impathm", path] =>
     match pkgOf st (unhex path) with
     | some p => some (st, optHex (obfImportPath st.cfg p))
